@@ -54,4 +54,14 @@ Definition prim_ops : fops float := {|
   f_is_pinf := fun x => PrimFloat.eqb x infinity
 |}.
 
+(* the same operations on 64-bit patterns (F := N) *)
+Definition bits_ops : fops N := {|
+  f_leb := fun a b => PrimFloat.leb (of_bits a) (of_bits b);
+  f_ltb := fun a b => PrimFloat.ltb (of_bits a) (of_bits b);
+  f_add := fun a b => to_bits (PrimFloat.add (of_bits a) (of_bits b));
+  f_zero := 0%N;
+  f_inf := 0x7FF0000000000000%N;
+  f_is_pinf := fun a => N.eqb a 0x7FF0000000000000%N
+|}.
+
 Definition fbits_eqb (a b : N) : bool := N.eqb a b.
